@@ -354,7 +354,14 @@ func discharge(reps []*FuncReport, timeoutS int, all bool) {
 					mu.Unlock()
 					return
 				}
-				res := runQuery(o.Name, q, timeoutS, all && !o.Cover, nil)
+				to := timeoutS
+				if o.Cover && to > 4 {
+					// satisfiability of quantified assumption sets is often
+					// undecided; a cover that is not refuted quickly is reported
+					// as cover-unknown, never as a failure
+					to = 4
+				}
+				res := runQuery(o.Name, q, to, all && !o.Cover, nil)
 				or.Backend, or.Ms, or.Solver = res.Backend, res.Ms, res.Status
 				if o.Cover {
 					switch res.Status {
